@@ -182,6 +182,13 @@ func (eng *Engine) verifyFunc(fn *ssa.Function, fc *FuncContract, props []string
 	res.Covers = append(res.Covers, &Obligation{Name: fn.String() + scenSuffix(scenName) + "#cover#requires", Kind: "cover", Func: fn.String(), Prefix: e.sc.mark(), Goal: "false", PC: "true", Script: e.sc, Expect: "sat", Props: props})
 
 	exits := e.run(fn, st, fc)
+	if fc != nil {
+		for i, cl := range fc.Lists["at_return"] {
+			if e.atReturnHits[i] == 0 {
+				e.note("CONTRACT-ERROR at_return clause applies at no return: %s:%d", cl.File, cl.Line)
+			}
+		}
+	}
 	exits = e.applyRecover(fn, fc, exits)
 	exits = e.mergeExits(exits)
 
@@ -953,7 +960,7 @@ func (e *Exec) cutLoopHead(fn *ssa.Function, fc *FuncContract, l *loopInfo, st *
 	}
 	if fc != nil && len(fc.Lists["count_calls"]) > 0 {
 		for name, t := range e.ghostTypes {
-			if strings.HasSuffix(name, "_calls") && !e.rawGhost[name] {
+			if strings.HasSuffix(name, "_calls") && !e.rawGhost[name] && e.loopMayCount(l, strings.TrimSuffix(name, "_calls")) {
 				keys["ghost|"+name] = e.sc.sortOf(t)
 			}
 		}
@@ -1449,4 +1456,60 @@ func (e *Exec) preservesCheck(st *State, typs []string, xi int, fc *FuncContract
 		goal := imp(fmt.Sprintf("(and (>= %s 0) (< %s %s))", r, r, topE), fmt.Sprintf("(= (select %s %s) (select %s %s))", cur, r, init, r))
 		e.checkPost(st, "frame", "preserves."+k+exitSuffix(xi), goal, nil, fmt.Sprintf("%s:%d", fc.File, fc.Line))
 	}
+}
+
+// loopMayCount: can the body of the loop advance the call counter <g>_calls (g with '.' written
+// as '_')? Either it calls something counted under that name, or a callee whose own contract counts it.
+func (e *Exec) loopMayCount(l *loopInfo, g string) bool {
+	match := func(n string) bool { return n != "" && strings.ReplaceAll(n, ".", "_") == g }
+	for b := range l.body {
+		for _, ins := range b.Instrs {
+			var cc *ssa.CallCommon
+			switch x := ins.(type) {
+			case *ssa.Call:
+				cc = &x.Call
+			case *ssa.Go:
+				if g == "go" {
+					return true
+				}
+				cc = &x.Call
+			case *ssa.Defer:
+				cc = &x.Call
+			default:
+				continue
+			}
+			var fcC *FuncContract
+			if cc.IsInvoke() {
+				if match(cc.Method.Name()) || match(qualName(cc)) {
+					return true
+				}
+				fcC = e.eng.ifaceContract(cc)
+			} else if cal := cc.StaticCallee(); cal != nil {
+				if match(cal.Name()) || match(staticQualName(cal)) {
+					return true
+				}
+				fcC = e.eng.contractFor(cal)
+				if fcC == nil && e.eng.inRepo(cal) {
+					return true // inlined or havocked callee: may contain counted calls
+				}
+			} else {
+				if prm, ok := cc.Value.(*ssa.Parameter); ok && match(prm.Name()) {
+					return true
+				}
+				if _, isB := cc.Value.(*ssa.Builtin); !isB {
+					return true // dynamic call: unknown
+				}
+			}
+			if fcC != nil {
+				for _, cl := range fcC.Lists["count_calls"] {
+					for _, n := range strings.Fields(cl.Expr) {
+						if match(n) {
+							return true
+						}
+					}
+				}
+			}
+		}
+	}
+	return false
 }
